@@ -82,6 +82,38 @@ def loglik_ref(gam, cls, y, mu, w):
     return float(sp.stats.invgauss.logpdf(y, mu / lam, scale=lam).sum())
 
 
+def refit_probe(res, rng):
+    """statistics after a SECOND fit of the same estimator object on other data (generic GAM keeps its distribution object between
+    fits): scale must be the Pearson estimate of the data just fitted, cov/se must use it"""
+    import pygam
+    for dist, link in (('normal', 'identity'), ('gamma', 'log'), ('inv_gauss', 'log')):
+        nprng = np.random.RandomState(rng.randrange(1 << 30))
+        g = pygam.GAM(pygam.s(0, n_splines=6), distribution=dist, link=link, fit_intercept=False)
+        for rep, noise in enumerate((0.05, 0.8)):
+            n = 40
+            X = nprng.rand(n, 1)
+            f = np.sin(3 * X[:, 0])
+            y = (f + noise * nprng.randn(n)) if dist == 'normal' else np.exp(f) * nprng.gamma(1 / noise ** 2, noise ** 2, size=n)
+            w = None if rep == 0 else np.asarray(10 ** nprng.uniform(-0.5, 0.5, size=n), dtype=np.float32).astype(float)
+            try:
+                with np.errstate(all='ignore'):
+                    g.fit(X, y, weights=w)
+            except ValueError:
+                res.count('refit probe: fit raised ValueError')
+                break
+            ww = np.ones(n) if w is None else w
+            mu = g.predict_mu(X)
+            edof = g.statistics_['edof']
+            want = float(np.sum(ww * (y - mu) ** 2 / g.distribution.V(mu=mu)) / (n - edof))
+            got = float(g.statistics_['scale'])
+            res.case(('refit', dist, rep))
+            if not math.isclose(got, want, rel_tol=1e-6):
+                res.violations.append(dict(what='scale reported after fit number %d of the same estimator is not the Pearson estimate of that fit' % (rep + 1), finding=None,
+                                           input=dict(model="GAM(s(0, n_splines=6), distribution=%r, link=%r, fit_intercept=False)" % (dist, link), fit_number=rep + 1,
+                                                      X=X[:, 0].tolist(), y=y.tolist(), weights=None if w is None else w.tolist()),
+                                           observed=got, expected=want))
+
+
 def run(res):
     rng = common.rng_for(res.seed, PROP)
     nfits = 36 if res.tier == 'quick' else 400
@@ -210,6 +242,7 @@ def run(res):
                 nd = float(gam.distribution.deviance(y=ye, mu=np.full(n, ye.mean()), weights=we).sum())
             if math.isfinite(s_) and nd != 0 and not math.isclose(s_, 1 - fd / nd, rel_tol=1e-9, abs_tol=1e-12):
                 res.violations.append(dict(what='score is not the explained deviance 1 - D / D_null on the evaluation data', finding=None, input=d, observed=s_, expected=1 - fd / nd))
+    refit_probe(res, rng)
     with common.CaseDir(PROP) as cd:
         failing, errors = common.run_bool_cases(cd, HEADER, cases, 'check_case8', shard=4)
         codes = {}
